@@ -26,8 +26,8 @@ REGISTRATION = {
             "digest by its pre-image: exact unless SHA-256 collides on a run's byte strings; the staged-variant "
             "theorems assume no collision between strings of different length); the file system is faithful; one "
             "chunk answer is consumed at a time (true write-write races between overlapping chunks and two "
-            "concurrent Pull calls on one blob are not explored); a read timeout hits requests waiting for "
-            "headers (a body stalling mid-way is represented by a read error); trace callbacks ignored; legacy "
+            "concurrent Pull calls on one blob are not explored); read timeouts are driven in fake time (requests "
+            "waiting for headers, and a body that goes silent mid-way); trace callbacks ignored; legacy "
             "push: single-part uploads only (files < 100 MB), no 401/token and no 307 redirect path. Known "
             "finding F10d (Chunked writes into the final blob file) is open on /repo; "
             "proposed_fixes/C09-F10d-stage-chunked-blob.patch repairs it and the check passes on both trees.",
@@ -144,7 +144,7 @@ def run(ctx):
         "SHA-256 is collision-free on the byte strings of a run (digests are represented by pre-images in the oracle)",
         "one chunk answer is consumed at a time: write-write races between concurrently answered overlapping chunks are not explored",
         "generator: two plan entries with the same range but different digests only with MaxStreams=1 (requests are indistinguishable otherwise)",
-        "read timeout: modelled for requests waiting for response headers (step `timeout`); a body that stalls mid-way is represented by a read error",
+        "read timeout: ReadTimeout=10 s, the controller lets 11 s of fake time pass (step `timeout`, body end `stall`); every request waiting at that moment times out together",
         "staged-variant theorems: H has no collision between byte strings of different lengths",
         "the fake transport returns context.Cause(ctx) for a cancelled request, like net/http's transport",
     ]
